@@ -82,6 +82,7 @@ def main(argv=None):
                 ctx.error("analysis", str(e))
             if not os.environ.get("PDSA_NO_ANCHOR_TABLE"):
                 ctx.apply_anchor_table()
+            ctx.apply_distance_gate()
             out = {"findings": [f.as_dict() for f in ctx.findings], "errors": ctx.errors,
                    "obligations": len(ctx.obligations)}
         except AnalysisError as e:
